@@ -518,6 +518,27 @@ func twin(o model.Frame, mut string) (qframe.QFrame, bool) {
 		if !done {
 			return qframe.QFrame{}, false
 		}
+	case "nanbits":
+		// every NaN cell by a NaN of another bit pattern (the quiet NaN arithmetic yields vs math.NaN()): still Equal
+		done := false
+		for ci := range t.Cols {
+			if t.Cols[ci].Kind != model.Float {
+				continue
+			}
+			for ri, c := range t.Cols[ci].Cells {
+				if math.IsNaN(c.F) {
+					bits := uint64(0xFFF8000000000000)
+					if math.Float64bits(c.F) == bits {
+						bits = 0x7FF8000000000001
+					}
+					t.Cols[ci].Cells[ri] = model.F(math.Float64frombits(bits))
+					done = true
+				}
+			}
+		}
+		if !done {
+			return qframe.QFrame{}, false
+		}
 	case "name":
 		if len(t.Cols) == 0 {
 			return qframe.QFrame{}, false
@@ -971,7 +992,7 @@ func c09Run(ctx *core.Ctx) {
 				ctx.Sample(map[string]interface{}{"init": init, "path": pathString(ff.path), "frame": o.String()})
 			}
 			// twins
-			for _, mut := range []string{"same", "cell", "name", "type", "order", "enumperm", "enumswap"} {
+			for _, mut := range []string{"same", "cell", "name", "type", "order", "enumperm", "enumswap", "nanbits"} {
 				t, ok := twin(o, mut)
 				if !ok {
 					continue
@@ -1039,7 +1060,7 @@ func c09Run(ctx *core.Ctx) {
 			ctx.Exec(c, func() *core.Failure { return checkObservers(qf) })
 			ctx.Outcome("observers/permuted-layout")
 			ctx.Nontrivial(fmt.Sprintf("perm/%d/%v", init, perm))
-			for _, mut := range []string{"same", "cell", "enumperm", "enumswap"} {
+			for _, mut := range []string{"same", "cell", "enumperm", "enumswap", "nanbits"} {
 				if t, ok := twin(model.Observe(qf), mut); ok {
 					pc := obsCase{Init: init, Perm: perm, Pair: true, Twin: "twin-" + mut}
 					ctx.Exec(pc, func() *core.Failure { return checkEqualsPair(qf, t) })
